@@ -401,7 +401,8 @@ def setup() -> int:
     os.environ.setdefault("EZDXF_VERIF", "1")
     ensure_cext()
     sys.path.insert(0, str(REPO / "src"))
-    mods = sorted(p.stem for p in (VERIF / "harness" / "props").glob("c[0-9][0-9].py"))
+    enabled = set((VERIF / "manifest.d" / "ENABLED").read_text().split())
+    mods = sorted(p.stem for p in (VERIF / "harness" / "props").glob("c[0-9][0-9].py") if p.stem.upper() in enabled)
     targets = ["Drivers.Proto"]
     for m in mods:
         mod = importlib.import_module(f"props.{m}")
